@@ -1163,3 +1163,26 @@ package ro
 //@   props C04
 //@   track call.Trunc
 //@   on next(ctx, value) : emits call.Trunc(value), Next(ctx, res(call.Trunc))
+
+// CombineLatestAll: the helper closures of the dynamic variant
+
+//@ func CombineLatestAll$1$1$1
+//@   note onUpdate: while not done, one tuple of the latest values of every source (in source order) once all of them have emitted; nothing otherwise
+//@   props C05 C04
+//@   binds ctx status values destination
+//@   inline (*Pointer).Load
+//@   track destination.* loop.*
+//@   ensures [silent-once-done-or-failed|C05] loaded(status) <= 0 ==> trace()
+//@   ensures [at-most-one-tuple|C05] count(destination.NextWithContext) <= 1
+//@   ensures [the-tuple-has-the-callbacks-context-and-one-slot-per-source|C05] called(destination.NextWithContext) ==> arg(destination.NextWithContext, 0) == ctx && len(arg(destination.NextWithContext, 1)) == len(values)
+
+//@ loop CombineLatestAll$1$1$1#0
+//@   invariant 0 <= it && it <= len(ranged)
+//@   iteration emits
+
+//@ func CombineLatestAll$1$1$2
+//@   note onCompleted: the output completes exactly when the last source has completed
+//@   props C05
+//@   binds status destination
+//@   track destination.*
+//@   ensures [completes-only-when-every-source-is-done|C05] iff(called(destination.CompleteWithContext), loaded(status) == 0)
